@@ -17,8 +17,12 @@ BASE = dict(nx_core=2, nx_pf=2, nx_sol=2, ny_inner_divertor=3, ny_sol=4, ny_oute
 def histories(tier):
     names = list(OPTSETS)
     hs = [[a] for a in names] + [[a, b] for a in names for b in names]
+    # state left behind by an earlier equilibrium AND MESH in the same interpreter, built from other arrays (a different flux function) or
+    # with other options, must not reach the file ("M" = build a mesh and its geometry without writing; "@I2" = the second array set)
+    hs += [["plain", "M", "plain@I2"], ["plain@I2", "M", "plain"], ["revbt", "M", "plain@I2"], ["plain@I2"], ["plain", "M", "revbt"], ["plain@I2", "M", "plain@I2"]]
     if tier == "thorough":
         hs += [[a, b, c] for a in ("revcur", "twopi", "revbt") for b in names for c in ("plain", "revcur")]
+        hs += [["revcur", "M", "plain@I2"], ["plain@I2", "M", "twopi"], ["plain", "M", "plain@I2", "M", "plain"]]
     return hs
 
 
@@ -36,8 +40,8 @@ def validate(traces, d):
 
 
 def pad(t):
-    t.setdefault("events", [{"ev": "none", "arg": "", "out": "", "changed": 0, "which": "", "pristine": 0, "digest": 0}])
-    t.setdefault("fresh", {k: 0 for k in OPTSETS})
+    t.setdefault("events", [{"ev": "none", "arg": "", "input": "", "out": "", "changed": 0, "which": "", "pristine": 0, "digest": 0}])
+    t.setdefault("fresh", {"I1": {k: 0 for k in OPTSETS}, "I2": {k: 0 for k in OPTSETS}})
     t.setdefault("digests", [0])
     t.setdefault("rt", {"first_run": 0, "recreate": 0, "second_run": 0, "geqdsk_bytes_equal": 0, "yaml_safe_loads": 0, "arrays_identical": 0, "max_abs_diff_q": 0})
     return t
@@ -59,6 +63,7 @@ def run(tier, seed):
     d = scratch("c14")
     hs = histories(tier)
     job_defs = {"fresh_" + n: [n] for n in OPTSETS}
+    job_defs["fresh2_plain"] = ["plain@I2"]
     for k, h in enumerate(hs):
         job_defs["h%03d" % k] = h
 
@@ -70,7 +75,10 @@ def run(tier, seed):
         rc, out, err = run_group([PY, "-B", os.path.join(VERIF, "harness/drivers/lifecycle_build.py"), os.path.join(jd, "job.json"), jd], timeout=900, env=repo_env())
         st = os.path.join(jd, "status.json")
         if not os.path.exists(st):
-            raise MachineryError("lifecycle_build gave no status for %s rc=%s\n%s" % (name, rc, (out + err)[-1500:]))
+            if name.startswith("fresh"):
+                raise MachineryError("lifecycle_build gave no status for %s rc=%s\n%s" % (name, rc, (out + err)[-1500:]))
+            # a history that kills or hangs the interpreter is a finding about the history, not about the harness
+            return name, {"events": [], "fatal": "no status written (rc=%s): %s" % (rc, (out + err)[-300:])}
         with open(st) as fh:
             return name, json.load(fh)
 
@@ -103,16 +111,26 @@ def run(tier, seed):
     jobs += [lambda n=n: repeat(n) for n in reps]
     jobs.append(roundtrip)
     results = dict(parallel_jobs(jobs, nproc=max(2, NCPU - 2)))
-    fresh = {}
+    fresh1 = {}
     for n in OPTSETS:
         ev = results["fresh_" + n]["events"]
-        fresh[n] = ev[-1]["digest"] if ev and ev[-1]["ev"] == "Write" else 0
-    if any(x == 0 for x in fresh.values()):
-        v.fail_machinery("a fresh reference build failed: %s %s" % (fresh, {n: results["fresh_" + n].get("fatal") for n in OPTSETS}))
+        fresh1[n] = ev[-1]["digest"] if ev and ev[-1]["ev"] == "Write" else 0
+    ev = results["fresh2_plain"]["events"]
+    fresh = {"I1": fresh1, "I2": dict({n: 0 for n in OPTSETS}, plain=ev[-1]["digest"] if ev and ev[-1]["ev"] == "Write" else 0)}
+    if any(x == 0 for x in fresh1.values()) or fresh["I2"]["plain"] == 0:
+        v.fail_machinery("a fresh reference build failed: %s %s %s" % (fresh, {n: results["fresh_" + n].get("fatal") for n in OPTSETS}, results["fresh2_plain"].get("fatal")))
         shutil.rmtree(d, ignore_errors=True)
         return v
     traces = []
     for n, st in sorted(results.items()):
+        if n.startswith("h") and (st.get("fatal") or not st["events"] or st["events"][-1]["ev"] != "Write"):
+            # every build in these histories succeeds in a fresh interpreter, so a history that does not end in a written file broke
+            # because of what happened before in the same interpreter
+            v.add_case("history %s" % job_defs[n])
+            v.violation("C14 engine=history clause=CompletesAsInFreshInterpreter history=%s" % "+".join(job_defs[n]),
+                        "history %s does not end in a written grid although each of its builds succeeds on its own: %s" % (job_defs[n], st.get("fatal") or st.get("exc") or [e["ev"] for e in st["events"]]),
+                        {"history": job_defs[n], "status": {k: st[k] for k in st if k != "events"}})
+            continue
         if n.startswith("h"):
             traces.append(pad({"id": len(traces) + 1, "kind": "history", "name": n, "events": st["events"], "fresh": fresh, "history": job_defs[n]}))
     for n in reps:
